@@ -531,18 +531,52 @@ func oneLine(s string, max int) string {
 	return s
 }
 
+// confirm replays a violation in a fresh process: first from the plan alone and, if that does not reproduce it,
+// with growing suffixes of the plans the finding process had executed before (the code under test may carry state
+// from call to call inside the process). The replay file is rewritten with exactly the history that was needed
+// (none in the ordinary case), so that replaying the file reproduces the violation.
 func confirm(b *built, id, path string, kn []known) (bool, string) {
-	job := map[string]any{"mode": "replay", "property": id, "plan": path, "known": knownFor(id, kn)}
-	r := runWorker(b, job, "confirm-"+filepath.Base(path), 5*time.Minute)
-	for _, m := range r.records {
-		if m["type"] == "replay" {
+	raw, rerr := os.ReadFile(path)
+	var rf map[string]json.RawMessage
+	var hist []json.RawMessage
+	if rerr == nil && json.Unmarshal(raw, &rf) == nil {
+		json.Unmarshal(rf["history"], &hist)
+	}
+	detail := ""
+	tried := map[int]bool{}
+	for _, n := range []int{0, 1, 2, 4, 8, len(hist)} {
+		if n > len(hist) || tried[n] {
+			continue
+		}
+		tried[n] = true
+		job := map[string]any{"mode": "replay", "property": id, "plan": path, "known": knownFor(id, kn), "history_len": n}
+		r := runWorker(b, job, "confirm-"+filepath.Base(path), 5*time.Minute)
+		seen := false
+		for _, m := range r.records {
+			if m["type"] != "replay" {
+				continue
+			}
+			seen = true
 			if rep, _ := m["reproduced"].(bool); rep {
+				if rf != nil {
+					delete(rf, "history")
+					if n > 0 {
+						hb, _ := json.Marshal(hist[len(hist)-n:])
+						rf["history"] = hb
+					}
+					if out, err := json.MarshalIndent(rf, "", " "); err == nil {
+						os.WriteFile(path, out, 0644)
+					}
+				}
 				return true, ""
 			}
-			return false, fmt.Sprintf("classes seen: %v", m["classes"])
+			detail = fmt.Sprintf("classes seen: %v", m["classes"])
+		}
+		if !seen {
+			return false, fmt.Sprintf("no replay record (%v) %s", r.err, oneLine(r.output, 500))
 		}
 	}
-	return false, fmt.Sprintf("no replay record (%v) %s", r.err, oneLine(r.output, 500))
+	return false, detail
 }
 
 func runReplay(path string) int {
@@ -571,7 +605,7 @@ func runReplay(path string) int {
 	}
 	abs, _ := filepath.Abs(path)
 	kn := loadKnown()
-	job := map[string]any{"mode": "replay", "property": rf.Plan.Property, "plan": abs, "known": knownFor(rf.Plan.Property, kn)}
+	job := map[string]any{"mode": "replay", "property": rf.Plan.Property, "plan": abs, "known": knownFor(rf.Plan.Property, kn), "history_len": -1}
 	r := runWorker(b, job, "replay", 10*time.Minute)
 	reproduced, knownHit := false, false
 	for _, m := range r.records {
